@@ -26,3 +26,4 @@ def run(ctx, R):
     vmcfg.rule_asm_mp(ctx, R)
     vmcfg.rule_v2gates(ctx, R, FI)
     aes.rule_asm(ctx, R, FI)
+    vmcfg.rule_compose(ctx, R, FI)
